@@ -3,6 +3,7 @@
 package c15
 
 import (
+	"fmt"
 	"os"
 	"strings"
 	"testing"
@@ -237,6 +238,26 @@ func runCovers(c *h.Ctx, cs CoversCase) {
 }
 
 var covers = h.Define(P, "covers", func(t *rapid.T) CoversCase {
+	if rapid.IntRange(0, 9).Draw(t, "deep") == 0 {
+		// nothing bounds the number of segments: parents and children around every power of two up to 1024
+		n := rapid.SampledFrom([]int{15, 16, 17, 31, 32, 33, 63, 64, 65, 66, 127, 128, 129, 255, 256, 257, 1000, 1024, 1025}).Draw(t, "deepn")
+		var sb strings.Builder
+		for i := 0; i < n; i++ {
+			fmt.Fprintf(&sb, "/s%d", i%7)
+		}
+		a := sb.String()
+		b := a + "/" + rapid.SampledFrom(nonEmptySegs).Draw(t, "deepchild")
+		cc := b
+		switch rapid.IntRange(0, 3).Draw(t, "deeprel") {
+		case 0:
+			cc = b + "/x/y"
+		case 1:
+			cc = a + "x" // textual extension of the last segment: not covered
+		case 2:
+			cc = a[:len(a)-1] // last segment cut short
+		}
+		return CoversCase{a, b, cc}
+	}
 	a := drawCmd(t, "a")
 	b := drawRelated(t, a, "b")
 	cc := drawRelated(t, b, "c")
